@@ -341,7 +341,11 @@ def main(argv=None):
         by_backend[o["backend"]] = by_backend.get(o["backend"], 0) + 1
     for o in all_obs:
         solver_s += o.get("seconds", 0)
-    n_ob = len(proved) + len(refuted) + len(new_unknown)
+    # obligations claimed by this run: those proved, those newly violated and those newly undecided.  Obligations that fail
+    # because of a recorded known finding, and the hand-listed expected-undecided leaves, are not claimed; they are reported
+    # separately (known_findings_reported, refuted_known, undecided_expected_count) and never counted as discharged
+    n_known_refuted = sum(1 for o in refuted if any(k["key"] == o.get("finding_key") for k in known))
+    n_ob = len(proved) + (len(refuted) - n_known_refuted) + len(new_unknown)
     wall = round(time.time() - t_start, 1)
     print(
         f"{pid}: obligations={n_ob} discharged={len(proved)} refuted={len(refuted)} "
@@ -398,6 +402,7 @@ def main(argv=None):
                 "jobs_by_engine": engines,
                 "functions_under_contract": [{"function": f, "sha256_16": h} for f, h in sorted(hashes.items())],
                 "refuted": len(refuted),
+                "refuted_known": n_known_refuted,
                 "known_findings_reported": [h["key"] for h, _ in known_hits],
                 "undecided_expected": und_counts if expected_unknown else {},
                 "undecided_expected_count": len(expected_unknown),
